@@ -233,6 +233,10 @@ func aRequired(obj *ischema.ObjectNode) []string {
 
 // aCheckObject compares one compiled object with its expected property list,
 // including the set of required keys.
+// aAllOptional: the schemas of this path were built with
+// AreKeysOptionalByDefault (a property without an `optional` rule is optional).
+var aAllOptional bool
+
 func aCheckObject(obj *ischema.ObjectNode, want []aProp) {
 	zzverif.Assert(len(obj.Children()) == len(want), "the compiled object has own + inherited properties")
 	if len(obj.Children()) != len(want) {
@@ -242,7 +246,7 @@ func aCheckObject(obj *ischema.ObjectNode, want []aProp) {
 	for i, p := range want {
 		zzverif.Assert(obj.Key(i).Key == p.key, "own properties first, then inherited ones, in order")
 		zzverif.Assert(obj.Children()[i].InheritedFrom() == p.from, "each inherited property is marked with the type it came from")
-		if !p.optional {
+		if !p.optional && !aAllOptional {
 			req = append(req, p.key)
 		}
 	}
@@ -267,18 +271,49 @@ func aCheckObject(obj *ischema.ObjectNode, want []aProp) {
 // inside a referenced type, and inherited object-valued properties.
 func VerifC07_Heirs() {
 	zzverif.Expect("checked")
+	aAllOptional = false
 	k1, k2, k3 := aKey("k1"), aKey("k2"), aKey("k3")
 	zzverif.Assume(k1 != k2)
 	o1, o2 := zzverif.Bool("opt1"), zzverif.Bool("opt2")
 	pp := []aProp{{key: k1, optional: o1}}
 	qq := []aProp{{key: k2, optional: o2}}
-	switch zzverif.IntRange("shape", 0, 2) {
+	switch zzverif.IntRange("shape", 0, 3) {
+	case 3: // an heir that is an ITEM of an array (at the root, or below a member)
+		missing := zzverif.Bool("parentMissing")
+		zzverif.Assume(k3 != k1)
+		heir := "{ // {allOf: \"@p\"}\n    \"" + k3 + "\": 1\n  }"
+		text := "[\n  " + heir + "\n]"
+		below := zzverif.Bool("belowMember")
+		if below {
+			text = "{\n  \"list\": [\n  " + heir + "\n  ]\n}"
+		}
+		root := New("root", text)
+		if !missing {
+			_ = root.AddType("@p", New("@p", aObject("", pp)))
+		}
+		err := root.Check()
+		zzverif.Assert((err != nil) == missing, "allOf on an array item is compiled and checked like anywhere else")
+		if err == nil {
+			var arr *ischema.ArrayNode
+			if below {
+				arr = root.Inner.RootNode().(*ischema.ObjectNode).Children()[0].(*ischema.ArrayNode)
+			} else {
+				arr = root.Inner.RootNode().(*ischema.ArrayNode)
+			}
+			aCheckObject(arr.Children()[0].(*ischema.ObjectNode), append([]aProp{{key: k3}}, aInherit(pp, "@p")...))
+		}
 	case 0: // two heirs: the first inherits @p and @q, the second only @p
 		text := "{\n  \"u\": { // {allOf: [\"@p\", \"@q\"]}\n  },\n  \"v\": { // {allOf: \"@p\"}\n    \"" + k3 + "\": 1\n  },\n  \"w\": { // {allOf: \"@q\"}\n  }\n}"
 		zzverif.Assume(k3 != k1)
-		root := New("root", text)
-		_ = root.AddType("@p", New("@p", aObject("", pp)))
-		_ = root.AddType("@q", New("@q", aObject("", qq)))
+		aAllOptional = zzverif.Bool("optionalByDefault")
+		mk := func(name, body string) *JSchema {
+			x := New(name, body)
+			x.AreKeysOptionalByDefault = aAllOptional
+			return x
+		}
+		root := mk("root", text)
+		_ = root.AddType("@p", mk("@p", aObject("", pp)))
+		_ = root.AddType("@q", mk("@q", aObject("", qq)))
 		zzverif.Assert(root.Check() == nil, "disjoint parents merge")
 		ro, ok := root.Inner.RootNode().(*ischema.ObjectNode)
 		zzverif.Assert(ok && len(ro.Children()) == 3, "three members")
